@@ -119,7 +119,7 @@ def doc_roundtrip(doc, label):
     try:
         s0 = strip(snap.snapshot(doc, norm7=True, errors=False, derive_matrix=True))
     except Exception as e:
-        return None
+        return ('model-unreadable:' + type(e).__name__, '%s: reading the public attributes of the model raised %s: %s' % (label, type(e).__name__, str(e)[:120]))
     b0 = io.BytesIO()
     try:
         doc.write(b0)
